@@ -121,10 +121,37 @@ struct Outcome {
     after_error_detail: Option<String>,
     /// round 6: for every entry of `stmts` delivered through HItem::rec, the same statement without its graph name
     spo_only: Vec<String>,
+    /// round 7: complaints of the error renderer (Display / Debug / source() chain of every reported error, each under catch_unwind)
+    render_bad: Vec<String>,
+    /// round 7: the complete Display text of the first error rendered during the run
+    err_full: Option<String>,
 }
 
 fn term_text<T: Term>(t: T) -> String { let st: SimpleTerm = t.into_term(); format!("{st:?}") }
-fn short_err<E: std::fmt::Display>(e: E) -> String { format!("{e}").replace('\n', " ").chars().take(120).collect() }
+fn short_err<E: std::error::Error + 'static>(e: E) -> String { render_error(&e); format!("{e}").replace('\n', " ").chars().take(120).collect() }
+/// round 7: a reported error is rendered completely -- Display (twice: the same text), Debug, alternate and padded forms, and the same for
+/// every link of its source() chain -- each step under catch_unwind: error paths are code too, and their messages embed text of the document
+fn render_error(e: &(dyn std::error::Error + 'static)) {
+    fn step(which: &str, f: &dyn Fn() -> String) -> Option<String> {
+        match catch_unwind(AssertUnwindSafe(f)) { Ok(s) => Some(s), Err(_) => { let m: String = LAST_PANIC.with(|l| l.borrow().clone()).chars().take(200).collect(); RENDER_BAD.with(|b| b.borrow_mut().push(format!("rendering the reported error PANICKED ({which}): {m}"))); None } }
+    }
+    let d1 = step("Display", &|| format!("{e}")); let d2 = step("Display, second time", &|| e.to_string());
+    if let (Some(a), Some(b)) = (&d1, &d2) { if a != b { RENDER_BAD.with(|x| x.borrow_mut().push(format!("Display of one error value gave two different texts: {:?} and {:?}", a.chars().take(120).collect::<String>(), b.chars().take(120).collect::<String>()))); } }
+    step("Debug", &|| format!("{e:?}")); step("alternate Debug", &|| format!("{e:#?}")); step("alternate Display", &|| format!("{e:#}")); step("padded and truncated Display", &|| format!("{e:>12.7}"));
+    let mut links = 0u64;
+    let mut cur: Option<&(dyn std::error::Error + 'static)> = match catch_unwind(AssertUnwindSafe(|| e.source())) { Ok(s) => s, Err(_) => { RENDER_BAD.with(|b| b.borrow_mut().push(format!("source() of the reported error PANICKED: {}", LAST_PANIC.with(|l| l.borrow().clone()).chars().take(200).collect::<String>()))); None } };
+    while let Some(s) = cur {
+        links += 1; if links > 32 { RENDER_BAD.with(|b| b.borrow_mut().push("the source() chain of the reported error does not end within 32 links".to_string())); break; }
+        step("Display of a source() link", &|| format!("{s}")); step("Debug of a source() link", &|| format!("{s:?}"));
+        cur = match catch_unwind(AssertUnwindSafe(|| s.source())) { Ok(n) => n, Err(_) => { RENDER_BAD.with(|b| b.borrow_mut().push(format!("source() of a link of the error chain PANICKED: {}", LAST_PANIC.with(|l| l.borrow().clone()).chars().take(200).collect::<String>()))); None } };
+    }
+    if let Some(d) = d1 {
+        RENDER_STAT.with(|st| { let mut st = st.borrow_mut(); st[0] += 1; if d.len() > 200 && !d.is_ascii() { st[1] += 1; } st[2] = st[2].max(d.len() as u64); st[3] += links; });
+        LAST_ERR_FULL.with(|l| { let mut l = l.borrow_mut(); if l.is_none() { *l = Some(d); } });
+    }
+}
+/// the StreamError a consuming method returned is rendered as a whole before it is taken apart
+fn seen_err<T, A: std::error::Error + 'static, B: std::error::Error + 'static>(r: Result<T, StreamError<A, B>>) -> Result<T, StreamError<A, B>> { if let Err(e) = &r { render_error(e); } r }
 
 /// The accessors of a yielded term answer consistently with its kind, the conversions downstream code performs
 /// unchecked agree with the term, and the validated wrappers built from its text behave like that text.
@@ -219,6 +246,15 @@ fn rio_literal(l: rio_api::model::Literal, g: bool, bad: &mut Vec<String>) {
     if w.kind() != sophia_api::term::TermKind::Literal || w.lexical_form().map(|x| &*x != val).unwrap_or(true) || w.language_tag().map(|t| t.as_str().to_string()) != lang.map(|x| x.to_string()) || w.datatype().is_none() || w.borrow_term().lexical_form().is_none() {
         bad.push(format!("Trusted<Literal> of {val:?} has wrong kind/lexical_form/language_tag"));
     }
+    lit_note(l, &w);
+}
+/// round 7: the raw literal (public fields of the rio item) and what the accessors of the wrapper answer, for the comparison with coq/C08/Literal.v
+fn lit_note(l: rio_api::model::Literal, w: &Trusted<rio_api::model::Literal>) {
+    use rio_api::model::Literal::*;
+    LIT_CASES.with(|c| { let mut c = c.borrow_mut(); if !c.0 || c.1.len() >= 700 { return; }
+        let raw = match l { Simple { value } => { if value.len() > 40 { return; } format!("(LSimple {})", coq_str(value)) } LanguageTaggedString { value, language } => { if value.len() > 40 || language.len() > 40 { return; } format!("(LLang {} {})", coq_str(value), coq_str(language)) } Typed { value, datatype } => { if value.len() > 40 || datatype.iri.len() > 80 { return; } format!("(LTyped {} {})", coq_str(value), coq_str(datatype.iri)) } };
+        let (lex, dt, lang) = (w.lexical_form().map(|x| coq_str(&x)), w.datatype().map(|x| coq_str(x.as_str())), w.language_tag().map(|x| coq_str(x.as_str())));
+        c.1.insert(format!("lit_ok {raw} {} {} {}", coq_opt(lex), coq_opt(dt), coq_opt(lang))); });
 }
 fn rio_var(v: rio_api::model::Variable, g: bool, bad: &mut Vec<String>) {
     let w = Trusted(v); check_term(w, g, bad);
@@ -381,9 +417,9 @@ where S: TripleSource, for<'x> <S as Source>::Item<'x>: Clone + Extra {
         Consume::SinkFail(k) => {
             let mut seen = 0usize;
             let r = src.try_for_each_triple(|t| -> Result<(), MyErr> { on_triple(t, false, g, out); seen += 1; if seen > k { Err(MyErr(seen as u64)) } else { Ok(()) } });
-            match r { Ok(()) => {} Err(StreamError::SourceError(e)) => out.err = Some(short_err(e)), Err(StreamError::SinkError(MyErr(x))) => { if x as usize == k + 1 { out.sink = true } else { out.bad.push(format!("the sink failed with MyErr({}) but the stream reports MyErr({x})", k + 1)); } } }
+            match seen_err(r) { Ok(()) => {} Err(StreamError::SourceError(e)) => out.err = Some(short_err(e)), Err(StreamError::SinkError(MyErr(x))) => { if x as usize == k + 1 { out.sink = true } else { out.bad.push(format!("the sink failed with MyErr({}) but the stream reports MyErr({x})", k + 1)); } } }
         }
-        Consume::Collect => match src.collect_triples::<Vec<[SimpleTerm<'static>; 3]>>() {
+        Consume::Collect => match seen_err(src.collect_triples::<Vec<[SimpleTerm<'static>; 3]>>()) {
             Ok(v) => { for t in v.iter() { see(t, None, g, out); } }
             Err(StreamError::SourceError(e)) => out.err = Some(short_err(e)),
             Err(StreamError::SinkError(e)) => out.bad.push(format!("collecting into a Vec reported a sink error: {e}")),
@@ -413,9 +449,9 @@ where S: QuadSource, for<'x> <S as Source>::Item<'x>: Clone + Extra {
         Consume::SinkFail(k) => {
             let mut seen = 0usize;
             let r = src.try_for_each_quad(|q| -> Result<(), MyErr> { on_quad(q, false, g, out); seen += 1; if seen > k { Err(MyErr(seen as u64)) } else { Ok(()) } });
-            match r { Ok(()) => {} Err(StreamError::SourceError(e)) => out.err = Some(short_err(e)), Err(StreamError::SinkError(MyErr(x))) => { if x as usize == k + 1 { out.sink = true } else { out.bad.push(format!("the sink failed with MyErr({}) but the stream reports MyErr({x})", k + 1)); } } }
+            match seen_err(r) { Ok(()) => {} Err(StreamError::SourceError(e)) => out.err = Some(short_err(e)), Err(StreamError::SinkError(MyErr(x))) => { if x as usize == k + 1 { out.sink = true } else { out.bad.push(format!("the sink failed with MyErr({}) but the stream reports MyErr({x})", k + 1)); } } }
         }
-        Consume::Collect => match src.collect_quads::<Vec<Spog<SimpleTerm<'static>>>>() {
+        Consume::Collect => match seen_err(src.collect_quads::<Vec<Spog<SimpleTerm<'static>>>>()) {
             Ok(v) => { for (spo, gn) in v.iter() { see(spo, gn.as_ref(), g, out); } }
             Err(StreamError::SourceError(e)) => out.err = Some(short_err(e)),
             Err(StreamError::SinkError(e)) => out.bad.push(format!("collecting into a Vec reported a sink error: {e}")),
@@ -436,7 +472,7 @@ impl BufRead for Feed<'_> {
     fn fill_buf(&mut self) -> std::io::Result<&[u8]> {
         let mut end = self.data.len().min(self.pos.saturating_add(self.chunk));
         if let Some(c) = self.cut { if c > self.pos && c < end { end = c; } }
-        if let Some(f) = self.fail_at { if self.pos >= f { self.failed.set(true); return Err(std::io::Error::new(std::io::ErrorKind::Other, "injected read failure")); } if f < end { end = f; } }
+        if let Some(f) = self.fail_at { if self.pos >= f { self.failed.set(true); return Err(std::io::Error::new(std::io::ErrorKind::Other, format!("injected read failure {}", filler_text(f % 4, FILL_CHARS[f % FILL_CHARS.len()], 150)))); } if f < end { end = f; } }
         Ok(&self.data[self.pos..end])
     }
     fn consume(&mut self, n: usize) { self.pos = (self.pos + n).min(self.data.len()); }
@@ -658,6 +694,8 @@ fn gen_doc(f: Fmt, r: &mut Rng, edge: bool) -> String {
 /// document number `k` of format `f`: 0 = the hand-written seed document, 1..=NGEN generated (fixed), above: token soup / random bytes from `r`
 const NGEN: usize = 12;
 fn corpus(f: Fmt, k: usize, r: &mut Rng) -> Vec<u8> {
+    if k >= VOC_BASE { return voc_doc(f, k - VOC_BASE).0.into_bytes(); }
+    if k >= ERR_BASE { return err_doc(f, k - ERR_BASE).0; }
     if k == 0 { return seeds(f)[0].as_bytes().to_vec(); }
     if k <= NGEN { let mut g = Rng::new(0xD0C5).fork((f as u64) * 1000 + k as u64); return gen_doc(f, &mut g, k > NGEN / 2).into_bytes(); }
     match k % 3 {
@@ -807,7 +845,7 @@ fn materialize(rc: &Recipe) -> (Vec<u8>, String) {
     let mut r = Rng::new(rc.seed);
     let doc = corpus(rc.pf, rc.doc, &mut r);
     let (pre, pay, suf) = wrap(rc.wrap, rc.pf, &doc, &mut r);
-    let docname = if rc.doc == 0 { "the seed document".to_string() } else if rc.doc <= NGEN { format!("generated document #{}", rc.doc) } else { ["random bytes", "a soup of dictionary tokens", "random printable ASCII"][rc.doc % 3].to_string() };
+    let docname = if rc.doc >= VOC_BASE { format!("vocabulary document #{} ({})", rc.doc - VOC_BASE, voc_doc(rc.pf, rc.doc - VOC_BASE).1) } else if rc.doc >= ERR_BASE { format!("error document #{} ({})", rc.doc - ERR_BASE, err_doc(rc.pf, rc.doc - ERR_BASE).1) } else if rc.doc == 0 { "the seed document".to_string() } else if rc.doc <= NGEN { format!("generated document #{}", rc.doc) } else { ["random bytes", "a soup of dictionary tokens", "random printable ASCII"][rc.doc % 3].to_string() };
     match &rc.tort {
         None => ([pre, pay, suf].concat(), format!("{:?}: {docname} {}", rc.pf, WRAP_NAMES[rc.wrap % NWRAP])),
         Some(t) => (apply_torture(t, &pre, &pay, &suf, &mut r), format!("{:?}: {docname} {}, with {} inserted {} in {}", rc.pf, WRAP_NAMES[rc.wrap % NWRAP], t.unit_name, MODE_NAMES[t.mode % 12], SCOPE_NAMES[t.scope % 4])),
@@ -894,7 +932,9 @@ fn directed_recipes(thorough: bool) -> Vec<Recipe> {
 // ------------------------------------------------------------------------------------------------------
 // Running a recipe: the property oracle on every run, and agreement of every entry point with parse(&[u8])
 // ------------------------------------------------------------------------------------------------------
-thread_local! { static LAST_PANIC: std::cell::RefCell<String> = std::cell::RefCell::new(String::new()); static RAW_INVALID_IRI: std::cell::RefCell<Option<String>> = std::cell::RefCell::new(None); }
+thread_local! { static LAST_PANIC: std::cell::RefCell<String> = std::cell::RefCell::new(String::new()); static RAW_INVALID_IRI: std::cell::RefCell<Option<String>> = std::cell::RefCell::new(None);
+    static RENDER_BAD: std::cell::RefCell<Vec<String>> = std::cell::RefCell::new(vec![]); static RENDER_STAT: std::cell::RefCell<[u64; 4]> = std::cell::RefCell::new([0; 4]); static LAST_ERR_FULL: std::cell::RefCell<Option<String>> = std::cell::RefCell::new(None);
+    static LIT_CASES: std::cell::RefCell<(bool, std::collections::BTreeSet<String>)> = std::cell::RefCell::new((false, Default::default())); }
 static WATCH_CASE: std::sync::atomic::AtomicU64 = std::sync::atomic::AtomicU64::new(0);
 static WATCH_TICK: std::sync::atomic::AtomicU64 = std::sync::atomic::AtomicU64::new(0);
 fn watch(case: u64) { WATCH_CASE.store(case, std::sync::atomic::Ordering::Relaxed); WATCH_TICK.fetch_add(1, std::sync::atomic::Ordering::Relaxed); }
@@ -907,8 +947,8 @@ fn start_watchdog(out: String, secs: u64) {
 }
 
 fn guarded(f: Fmt, base: bool, data: &[u8], e: Entry, c: Consume) -> Result<Outcome, String> {
-    RAW_INVALID_IRI.with(|x| *x.borrow_mut() = None);
-    match catch_unwind(AssertUnwindSafe(|| parse_with(f, base, data, e, c))) { Ok(mut o) => { o.raw_invalid_iri = RAW_INVALID_IRI.with(|x| x.borrow().clone()); Ok(o) } Err(_) => Err(LAST_PANIC.with(|l| l.borrow().clone()).chars().take(200).collect()) }
+    RAW_INVALID_IRI.with(|x| *x.borrow_mut() = None); RENDER_BAD.with(|x| x.borrow_mut().clear()); LAST_ERR_FULL.with(|x| *x.borrow_mut() = None);
+    match catch_unwind(AssertUnwindSafe(|| parse_with(f, base, data, e, c))) { Ok(mut o) => { o.raw_invalid_iri = RAW_INVALID_IRI.with(|x| x.borrow().clone()); o.render_bad = RENDER_BAD.with(|x| std::mem::take(&mut *x.borrow_mut())); o.err_full = LAST_ERR_FULL.with(|x| x.borrow_mut().take()); Ok(o) } Err(_) => Err(LAST_PANIC.with(|l| l.borrow().clone()).chars().take(200).collect()) }
 }
 fn is_prefix(a: &[String], b: &[String]) -> bool { a.len() <= b.len() && a.iter().zip(b.iter()).all(|(x, y)| x == y) }
 /// How an alternative run relates to the reference run parse(&[u8]) / for_each.
@@ -991,7 +1031,7 @@ fn run_recipe(id: usize, rc: &Recipe, cx: &mut RunCtx) {
     let (f, profile) = (rc.parser, cx.profile);
     let shown = String::from_utf8_lossy(&data).to_string();
     watch(id as u64);
-    let stream = if id >= 3_000_000 { "directed" } else { "polyglot" };
+    let stream = if id >= 7_000_000 { "vocabulary" } else if id >= 6_000_000 { "error-paths" } else if id >= 3_000_000 { "directed" } else { "polyglot" };
     let what = format!("{}; {what}", if matches!(f, Fmt::Nt | Fmt::Nq | Fmt::Gnq) { "parser without base notion" } else if rc.base { "base IRI http://base.example/dir/doc" } else { "no base IRI" });
     let tag = |e: Entry, about_iri: bool, raw: Option<&str>| if gtrig_no_base_iriref(f, rc.base, e, about_iri, raw, &shown) { "[gtrig-no-base-unvalidated-iriref] " } else if pname_char_outside_ucschar(f, e, about_iri, raw, &shown) { "[turtle-pname-char-outside-ucschar] " } else { "" };
     let ref_raw: std::cell::RefCell<Option<String>> = Default::default(); // what the reference run (same bytes, same parser) saw
@@ -1007,6 +1047,7 @@ fn run_recipe(id: usize, rc: &Recipe, cx: &mut RunCtx) {
         Err(msg) => { fails.push(panicked(Entry::Slice, "Slice/ForEach".to_string(), msg)); cx.sum.bump(&format!("{stream}:{f:?}:panic")); }
         Ok(o) => {
             if !o.bad.is_empty() { fails.push(invalid(Entry::Slice, "Slice/ForEach".to_string(), o)); }
+            for b in &o.render_bad { fails.push(format!("parser {f:?} ({profile} build): {b}; entry point Slice/ForEach; {what}; input {shown:?}")); }
             cx.sum.bump(&format!("{stream}:{f:?}:{}", if o.n > 0 { "yielded" } else { "rejected-or-empty" }));
             if o.n > 0 || rc.tort.is_some() || rc.wrap != 0 { cx.sum.distinct_nontrivial += 1; }
             if f == Fmt::JsonLd { let valid = std::str::from_utf8(&data).is_ok(); if o.utf8_error == valid { fails.push(format!("parser JsonLd ({profile} build) parse(&[u8]) reports a UTF-8 error: {}, but the bytes are {} UTF-8; {what}; input bytes {data:02x?}", o.utf8_error, if valid { "well-formed" } else { "not well-formed" })); } }
@@ -1040,6 +1081,7 @@ fn run_recipe(id: usize, rc: &Recipe, cx: &mut RunCtx) {
                         else { format!("{tg}parser {f:?} ({profile} build) yielded an invalid term: {d}; when for_some_* was called again after the source had reported an error; entry point {e:?}/{c:?}; {what}; input {shown:?}") });
                 } }
                 if !a.bad.is_empty() { fails.push(invalid(*e, format!("{e:?}/{c:?}"), &a)); }
+                for b in &a.render_bad { fails.push(format!("parser {f:?} ({profile} build): {b}; entry point {e:?}/{c:?}; {what}; input {shown:?}")); }
                 if let Ok(rf) = &reference { if rf.bad.is_empty() && a.bad.is_empty() { match agreement(rf, &a, *e, *c) {
                     Agreement::Same => {}
                     Agreement::EarlierError(who) => { let bom = f == Fmt::Xml && data.starts_with(b"\xEF\xBB\xBF") && matches!(e, Entry::Buffered(1 | 2) | Entry::Feed { chunk: 1 | 2, .. } | Entry::Feed { cut: Some(1 | 2), .. });
@@ -1161,8 +1203,8 @@ where S: Source, for<'x> <S as Source>::Item<'x>: HItem {
     let res = {
         let mut fallible = |i: <S as Source>::Item<'_>| -> Result<(), MyErr> { i.rec(g, &mut o); seen += 1; sink_after(seen, k) };
         match op {
-            MOp::TrySome(..) => { let f: DynTry<S> = &mut fallible; match src.try_for_some_item(f) { Ok(true) => Res::More, Ok(false) => Res::End, Err(SourceError(e)) => Res::SrcErr(short_err(e)), Err(SinkError(_)) => Res::SinkErr } }
-            MOp::TryEach(..) => { let f: DynTry<S> = &mut fallible; match src.try_for_each_item(f) { Ok(()) => Res::Done, Err(SourceError(e)) => Res::SrcErr(short_err(e)), Err(SinkError(_)) => Res::SinkErr } }
+            MOp::TrySome(..) => { let f: DynTry<S> = &mut fallible; match seen_err(src.try_for_some_item(f)) { Ok(true) => Res::More, Ok(false) => Res::End, Err(SourceError(e)) => Res::SrcErr(short_err(e)), Err(SinkError(_)) => Res::SinkErr } }
+            MOp::TryEach(..) => { let f: DynTry<S> = &mut fallible; match seen_err(src.try_for_each_item(f)) { Ok(()) => Res::Done, Err(SourceError(e)) => Res::SrcErr(short_err(e)), Err(SinkError(_)) => Res::SinkErr } }
             MOp::ForSome(_) => { let mut inf = |i: <S as Source>::Item<'_>| { let _ = fallible(i); }; let f: DynFor<S> = &mut inf; match src.for_some_item(f) { Ok(true) => Res::More, Ok(false) => Res::End, Err(e) => Res::SrcErr(short_err(e)) } }
             MOp::ForEach(_) => { let mut inf = |i: <S as Source>::Item<'_>| { let _ = fallible(i); }; let f: DynFor<S> = &mut inf; match src.for_each_item(f) { Ok(()) => Res::Done, Err(e) => Res::SrcErr(short_err(e)) } }
             MOp::Hint(_) => { let (lo, hi) = src.size_hint_items(); Res::Hint(lo, hi) }
@@ -1178,7 +1220,7 @@ where W: Source, for<'x> <W as Source>::Item<'x>: HItem {
         MOp::Hint(_) => { let (lo, hi) = w.size_hint_items(); Res::Hint(lo, hi) }
         _ => { let k = if let MOp::TryEach(_, k) = op { k } else { None };
             let mut fallible = |i: <W as Source>::Item<'_>| -> Result<(), MyErr> { i.rec(g, &mut o); seen += 1; sink_after(seen, k) };
-            let f: DynTry<W> = &mut fallible; match w.try_for_each_item(f) { Ok(()) => Res::Done, Err(SourceError(e)) => Res::SrcErr(short_err(e)), Err(SinkError(_)) => Res::SinkErr } }
+            let f: DynTry<W> = &mut fallible; match seen_err(w.try_for_each_item(f)) { Ok(()) => Res::Done, Err(SourceError(e)) => Res::SrcErr(short_err(e)), Err(SinkError(_)) => Res::SinkErr } }
     };
     obs_of(o, res)
 }
@@ -1193,8 +1235,8 @@ macro_rules! stmt_op_impl { ($name:ident, $wrap:ident, $tr:ident, $try_some:iden
         let res = {
             let mut fallible = |i: <S as Source>::Item<'_>| -> Result<(), MyErr> { i.rec(g, &mut o); seen += 1; sink_after(seen, k) };
             match op {
-                MOp::TrySome(..) => { let f: DynTry<S> = &mut fallible; match src.$try_some(f) { Ok(true) => Res::More, Ok(false) => Res::End, Err(SourceError(e)) => Res::SrcErr(short_err(e)), Err(SinkError(_)) => Res::SinkErr } }
-                MOp::TryEach(..) => { let f: DynTry<S> = &mut fallible; match src.$try_each(f) { Ok(()) => Res::Done, Err(SourceError(e)) => Res::SrcErr(short_err(e)), Err(SinkError(_)) => Res::SinkErr } }
+                MOp::TrySome(..) => { let f: DynTry<S> = &mut fallible; match seen_err(src.$try_some(f)) { Ok(true) => Res::More, Ok(false) => Res::End, Err(SourceError(e)) => Res::SrcErr(short_err(e)), Err(SinkError(_)) => Res::SinkErr } }
+                MOp::TryEach(..) => { let f: DynTry<S> = &mut fallible; match seen_err(src.$try_each(f)) { Ok(()) => Res::Done, Err(SourceError(e)) => Res::SrcErr(short_err(e)), Err(SinkError(_)) => Res::SinkErr } }
                 MOp::ForSome(_) => { let mut inf = |i: <S as Source>::Item<'_>| { let _ = fallible(i); }; let f: DynFor<S> = &mut inf; match src.$some(f) { Ok(true) => Res::More, Ok(false) => Res::End, Err(e) => Res::SrcErr(short_err(e)) } }
                 MOp::ForEach(_) => { let mut inf = |i: <S as Source>::Item<'_>| { let _ = fallible(i); }; let f: DynFor<S> = &mut inf; match src.$each(f) { Ok(()) => Res::Done, Err(e) => Res::SrcErr(short_err(e)) } }
                 MOp::Hint(_) => { let (lo, hi) = src.$hint(); Res::Hint(lo, hi) }
@@ -1210,7 +1252,7 @@ macro_rules! stmt_op_impl { ($name:ident, $wrap:ident, $tr:ident, $try_some:iden
             MOp::Hint(_) => { let (lo, hi) = w.$hint(); Res::Hint(lo, hi) }
             _ => { let k = if let MOp::TryEach(_, k) = op { k } else { None };
                 let mut fallible = |i: <W as Source>::Item<'_>| -> Result<(), MyErr> { i.rec(g, &mut o); seen += 1; sink_after(seen, k) };
-                let f: DynTry<W> = &mut fallible; match w.$try_each(f) { Ok(()) => Res::Done, Err(SourceError(e)) => Res::SrcErr(short_err(e)), Err(SinkError(_)) => Res::SinkErr } }
+                let f: DynTry<W> = &mut fallible; match seen_err(w.$try_each(f)) { Ok(()) => Res::Done, Err(SourceError(e)) => Res::SrcErr(short_err(e)), Err(SinkError(_)) => Res::SinkErr } }
         };
         obs_of(o, res)
     }
@@ -1220,7 +1262,7 @@ stmt_op_impl!(stmt_op_q, wrap_stmt_op_q, QuadSource, try_for_some_quad, try_for_
 
 /// the calls of `ops` one after the other, each under catch_unwind; stops after a panic (the source is in no defined state then)
 macro_rules! run_ops { ($obs:ident, $ops:expr, $call:expr) => { for op in $ops.iter() { let ob = guard_op(|| $call(*op)); let stop = matches!(ob.res, Res::Panic(_)); $obs.push(ob); if stop { break; } } } }
-fn iter_ops<I: Iterator<Item = Result<Rendered, E>>, E: std::fmt::Display>(it: &mut I, post: &[MOp], obs: &mut Vec<Obs>) {
+fn iter_ops<I: Iterator<Item = Result<Rendered, E>>, E: std::error::Error + 'static>(it: &mut I, post: &[MOp], obs: &mut Vec<Obs>) {
     for op in post.iter() {
         let ob = guard_op(|| match op {
             MOp::Hint(_) => { let (lo, hi) = it.size_hint(); Obs { stmts: vec![], bad: vec![], res: Res::Hint(lo, hi), spo: vec![] } }
@@ -1239,8 +1281,8 @@ macro_rules! run_hist_impl { ($name:ident, $tr:ident, $stmt_op:ident, $wrap_stmt
         let side = std::cell::RefCell::new(Outcome::default());
         let cnt = std::cell::Cell::new(0usize);
         match *fin {
-            Fin::Collect => obs.push(guard_op(move || { let mut o = Outcome::default(); match src.$collect::<$coll_ty>() { Ok(v) => { for x in v.iter() { $see_coll(x, g, &mut o); } obs_of(o, Res::Done) } Err(SourceError(e)) => obs_of(o, Res::SrcErr(short_err(e))), Err(SinkError(e)) => { o.bad.push(format!("collecting into a Vec reported a sink error: {e}")); obs_of(o, Res::SinkErr) } } })),
-            Fin::AddTo => obs.push(guard_op(move || { let mut o = Outcome::default(); let mut v: $coll_ty = Default::default(); let r = src.$add(&mut v); for x in v.iter() { $see_coll(x, g, &mut o); } match r { Ok(n) => obs_of(o, Res::Count(n)), Err(SourceError(e)) => obs_of(o, Res::SrcErr(short_err(e))), Err(SinkError(e)) => { o.bad.push(format!("inserting into a Vec reported a sink error: {e}")); obs_of(o, Res::SinkErr) } } })),
+            Fin::Collect => obs.push(guard_op(move || { let mut o = Outcome::default(); match seen_err(src.$collect::<$coll_ty>()) { Ok(v) => { for x in v.iter() { $see_coll(x, g, &mut o); } obs_of(o, Res::Done) } Err(SourceError(e)) => obs_of(o, Res::SrcErr(short_err(e))), Err(SinkError(e)) => { o.bad.push(format!("collecting into a Vec reported a sink error: {e}")); obs_of(o, Res::SinkErr) } } })),
+            Fin::AddTo => obs.push(guard_op(move || { let mut o = Outcome::default(); let mut v: $coll_ty = Default::default(); let r = seen_err(src.$add(&mut v)); for x in v.iter() { $see_coll(x, g, &mut o); } match r { Ok(n) => obs_of(o, Res::Count(n)), Err(SourceError(e)) => obs_of(o, Res::SrcErr(short_err(e))), Err(SinkError(e)) => { o.bad.push(format!("inserting into a Vec reported a sink error: {e}")); obs_of(o, Res::SinkErr) } } })),
             Fin::FilterStmt(k) => { let mut w = src.$filter(|i| { i.clone().rec(g, &mut side.borrow_mut()); let n = cnt.get(); cnt.set(n + 1); keep(k, n) }); run_ops!(obs, post, |op| $wrap_stmt_op(&mut w, op, g)); }
             Fin::FilterItems(k) => { let mut w = src.filter_items(|i| { i.clone().rec(g, &mut side.borrow_mut()); let n = cnt.get(); cnt.set(n + 1); keep(k, n) }); run_ops!(obs, post, |op| wrap_item_op(&mut w, op, g)); }
             Fin::MapStmt => { let mut w = src.$map(|i| render(i, g)); run_ops!(obs, post, |op| wrap_item_op(&mut w, op, g)); }
@@ -1732,7 +1774,7 @@ fn run_hcase(id: usize, hc: &HCase, cx: &mut HistCtx) {
     let what = format!("{}; {}; {what_doc}", match (&hc.jopts, hc.base_str()) { (Some(j), _) => format!("options {}", j.describe()), (None, Some(b)) => format!("base IRI {b}"), (None, None) => if matches!(f, Fmt::Nt | Fmt::Nq | Fmt::Gnq) { "parser without base notion".to_string() } else { "no base IRI".to_string() } }, format!("entry point {:?}", hc.entry));
     let failed = std::rc::Rc::new(std::cell::Cell::new(false));
     // the required method on a fresh source
-    RAW_INVALID_IRI.with(|x| *x.borrow_mut() = None);
+    RAW_INVALID_IRI.with(|x| *x.borrow_mut() = None); RENDER_BAD.with(|x| x.borrow_mut().clear());
     let mut tr = TraceRun { g, trace: Trace::default() };
     let opened = catch_unwind(AssertUnwindSafe(|| open(f, hc.base_str(), hc.jopts.as_ref(), &data, hc.entry, &failed, &mut tr)));
     let raw1 = RAW_INVALID_IRI.with(|x| x.borrow().clone());
@@ -1814,6 +1856,7 @@ fn run_hcase(id: usize, hc: &HCase, cx: &mut HistCtx) {
         if t.complete && cx.coq_budget > 0 && !obs.iter().any(|o| matches!(o.res, Res::Panic(_))) && t.steps.len() <= 60 && (id % 11 == 0 || id < 5_000_000) { cx.coq_budget -= 1; cx.coq_cases.push((id, coq_hist_case(t, &hc.hist, atomic, &obs))); }
     } }
     if failed.get() || failed2.get() { cx.sum.bump("history:reader-failure-reached"); }
+    { let mut rb = RENDER_BAD.with(|x| std::mem::take(&mut *x.borrow_mut())); rb.dedup(); for b in rb.into_iter().take(3) { fails.push(format!("parser {f:?} ({profile} build): {b}; during the history {hd} (or the calls of try_for_some_item on a fresh source); {what}; input {shown:?}")); } }
     if cx.verbose {
         println!("CASE {id}: parser {f:?}; {what}; history {hd}; input {shown:?}");
         if let Some(t) = &trace { println!("  try_for_some_item on a fresh source: complete {}, stop {:?}", t.complete, t.stop); for (i, s) in t.steps.iter().enumerate() { println!("    #{}: {} statement(s) {:?}, error {:?}", i + 1, s.stmts.len(), s.stmts, s.err); } }
@@ -1823,6 +1866,227 @@ fn run_hcase(id: usize, hc: &HCase, cx: &mut HistCtx) {
     if cx.sum.samples.len() < 12 && id % 997 == 3 { cx.sum.samples.push(format!("case {id}: {f:?}; {what}; history {hd}: {} call(s) observed", obs.len())); }
     cx.sum.bump(&format!("history-count:{f:?}:{}", if id >= 5_000_000 { "directed" } else { "random" }));
     for x in fails { cx.sum.oracle_failures.push((id.to_string(), x)); }
+}
+
+// ======================================================================================================
+// Round 7 (a): ERROR PATHS.  Every parser is driven into every kind of error it can report, with a token of the document
+// (IRI, prefix, local name, label, tag, key, context URL, element / attribute / entity name, text ...) replaced by a LONG
+// NON-ASCII token: 100..1000 repeats of a 2-, 3- or 4-byte character behind 0..3 ASCII letters, so that any shortening of a
+// message at a byte offset lands inside a character for one of the four shifts (Coq: pads_cover_every_cut).  Sources of error
+// documents: hand-written templates aimed at each error kind whose message quotes the document, and every broken and valid
+// unit of the history stream with each of its words replaced in turn.  Every reported error is rendered completely
+// (render_error) under catch_unwind, through every entry point / way of consuming / history.
+// Round 7 (b): LEGAL BUT UNUSUAL TERMS.  IRIs of the rdf: / xsd: / i18n vocabularies (and near misses) in every position of
+// every syntax -- subject, predicate, object, graph name, inside quoted triples, lists and annotations, as element / attribute
+// names, and as the explicit datatype of a literal: "chat"^^rdf:langString, ""^^xsd:string, the empty datatype IRI, a
+// language tag together with a datatype where the syntax allows it (RDF/XML) and where it does not (an error).
+// ======================================================================================================
+const ERR_BASE: usize = 100_000;
+const VOC_BASE: usize = 200_000;
+const HOLE: &str = "{X}";
+const FILL_CHARS: [char; 7] = ['\u{e9}', '\u{20AC}', '\u{1F600}', '\u{130}', '\u{1E9E}', '\u{20000}', '\u{301}'];
+const FILL_REPS: [usize; 4] = [150, 100, 333, 1000];
+/// the long token number `v` (0..8) of error source `src`: 4 shifts x 2 (character, length) pairs
+fn filler_of(src: usize, v: usize) -> (usize, char, usize) { let combo = src * 2 + (v / 4) % 2; (v % 4, FILL_CHARS[combo % FILL_CHARS.len()], FILL_REPS[(combo / FILL_CHARS.len() + src) % FILL_REPS.len()]) }
+fn filler_text(pad: usize, c: char, reps: usize) -> String { let mut s = "a".repeat(pad); for _ in 0..reps { s.push(c); } s }
+const XML_PRE: &str = "<?xml version=\"1.0\"?>\n<rdf:RDF xmlns:rdf=\"http://www.w3.org/1999/02/22-rdf-syntax-ns#\" xmlns:e=\"http://e/ns#\">\n";
+fn err_templates(f: Fmt) -> Vec<&'static str> {
+    let nt: Vec<&'static str> = vec![
+        "<http://e/{X}%zz> <http://e/p> <http://e/o> .\n", "<{X}> <http://e/p> <http://e/o> .\n", "<http://e/{X} bad> <http://e/p> <http://e/o> .\n", "<http://e/s> <http://e/p> \"x\"@{X} .\n", "<http://e/s> <http://e/p> \"x\"@en-{X} .\n",
+        "<http://e/s> <http://e/p> \"{X} .\n", "<http://e/s> <http://e/p> \"{X}\\q\" .\n", "_:{X}. <http://e/p> <http://e/o> .\n", "_:a{X}..b <http://e/p> <http://e/o> .\n", "<http://e/s> <http://e/p> \"x\"^^<{X}> .\n",
+        "<http://e/s> <http://e/p> \"x\"^^<http://e/{X}\\u0020> .\n", "<http://e/s> <http://e/p> <http://e/o> . {X}\n", "{X} <http://e/p> <http://e/o> .\n", "# {X}\n<http://e/s> <http://e/p> .\n", "<< <http://e/s> <http://e/p> \"{X}\" >> <http://e/q> .\n",
+        "<http://e/s> <http://e/p> \"{X}\"^^<http://e/{X}|> .\n", "?{X}. <http://e/p> <http://e/o> .\n", "<http://e/s> <http://e/p> \"\\U00110000{X}\" .\n", "<http://e/s> <http://e/{X}\\u00e9\\> <http://e/o> .\n", "<http://e/s> <http://e/p> <http://e/o> <http://e/{X}%zz> .\n",
+        "<http://e/s> <http://e/p> \"x\"@{X}^^<http://e/dt> .\n", "<http://[{X}]/> <http://e/p> <http://e/o> .\n", "<{X}://h/> <http://e/p> <http://e/o> .\n", "<http://e/s> <http://e/p> \"x\"@a-{X}-toolongsubtag .\n",
+    ];
+    match f {
+        Fmt::Nt | Fmt::Nq | Fmt::Gnq => nt,
+        Fmt::Turtle | Fmt::Trig | Fmt::Gtrig => { let mut v = nt; v.extend([
+            "{X}:a <http://e/p> <http://e/o> .\n", "@prefix p{X}: <http://e/> .\np{X}:a p{X}:b und{X}:c .\n", "@prefix p: <http://e/{X}%zz> .\n", "@base <{X}://b> .\n<a> <b> <c> .\n", "@prefix p: <http://e/> .\np:a p:b \"x\"@{X} .\n",
+            "@prefix p: <http://e/> .\np:a p:b \"x\"@en-{X} .\n", "@prefix p: <http://e/> .\np:{X}\\z p:b p:c .\n", "@prefix p: <http://e/> .\np:a p:b '''{X}\n", "@prefix p: <http://e/> .\np:a p:b ( \"{X}\" .\n", "@prefix p: <http://e/> .\np:a p:b 12{X} .\n",
+            "@prefix p: <http://e/> .\np:a p:b <{X} > .\n", "@{X} <http://e/> .\n", "GRAPH <http://e/{X}%zz> { <http://e/s> <http://e/p> <http://e/o> }\n", "<http://e/g> { <http://e/s> <http://e/p> {X} }\n", "@prefix p: <http://e/> .\np:a p:{X}% p:c .\n",
+            "PREFIX {X} <http://e/>\n", "BASE <http://e/{X}%zz>\n", "@prefix p: <http://e/> .\np:a p:b \"x\"^^{X}:dt .\n", "@prefix p: <http://e/> .\np:a p:b [ p:c {X}:d ] .\n", "@prefix p: <http://e/> .\n<< p:a p:b {X}:c >> p:d p:e .\n",
+            "@prefix p: <http://e/> .\np:a p:b p:c {| {X}:d p:e |} .\n", "@prefix p: <http://e/> .\n_:{X}..x p:b p:c .\n", "@prefix {X}: <{X}> .\n{X}:a {X}:b {X}:c .\n",
+        ]); v }
+        Fmt::Xml => vec![
+            "<rdf:Description rdf:ID=\"{X} bad\"/>", "<rdf:Description rdf:nodeID=\"{X} bad\"/>", "<rdf:Description rdf:bagID=\"{X} bad\"/>", "<rdf:Description rdf:about=\"http://e/s\" rdf:{X}=\"v\"/>", "<rdf:Description rdf:about=\"http://e/s\" rdf:li=\"{X}\"/>",
+            "<rdf:Description rdf:ID=\"a{X}\"/><rdf:Description rdf:ID=\"a{X}\"/>", "<rdf:li rdf:about=\"http://e/{X}\"/>", "<rdf:Description><rdf:Description>{X}</rdf:Description></rdf:Description>", "<rdf:Description><rdf:about>{X}</rdf:about></rdf:Description>", "<rdf:Description>{X}</rdf:Description>",
+            "<rdf:Description><{X}:p>v</{X}:p></rdf:Description>", "<rdf:Description><e:p rdf:parseType=\"Literal\" rdf:resource=\"{X}\"/></rdf:Description>", "<rdf:Description><e:p xml:lang=\"{X}\">v</e:p></rdf:Description>", "<rdf:Description><e:p xml:lang=\"en-{X}\">v</e:p></rdf:Description>", "<rdf:Description xml:base=\"{X} bad\" rdf:about=\"a\"/>",
+            "<rdf:Description><e:p>&{X};</e:p></rdf:Description>", "<rdf:Description><e:p></e:{X}></rdf:Description>", "<rdf:Description e:{X}=\"1\" e:{X}=\"2\"/>", "<rdf:Description e:a=\"{X}/>", "<e:p rdf:about=\"x\" {X}>",
+            "<?{X}", "<![CDATA[{X}", "<!--{X}", "</{X}>", "<rdf:Description rdf:about=\"http://e/s\"><e:p rdf:ID=\"i{X}\">a</e:p><e:q rdf:ID=\"i{X}\">b</e:q></rdf:Description>",
+            "<rdf:Description rdf:about=\"http://e/s\"><e:p rdf:resource=\"http://e/o\" rdf:nodeID=\"{X}\"/></rdf:Description>", "<rdf:Description rdf:about=\"http://e/s\"><e:p rdf:parseType=\"Literal\"><{X}></e:p></rdf:Description>", "<rdf:Description rdf:about=\"http://e/s\"><e:{X} rdf:parseType=\"{X}\" rdf:datatype=\"x\">v</e:{X}></rdf:Description>", "<rdf:Description rdf:aboutEach=\"{X}\"/>", "<rdf:{X} rdf:about=\"http://e/s\"><rdf:{X}>v</rdf:{X}></rdf:{X}><rdf:Description rdf:ID=\"1{X}\"/>",
+            "<rdf:Description xmlns:{X}=\"\"><{X}:p/></rdf:Description>", "<!DOCTYPE rdf:RDF [<!ENTITY {X} 'v>]>", "<rdf:Description><e:p xml:lang=\"a-{X}-toolongsubtag\">v</e:p></rdf:Description>",
+        ],
+        Fmt::JsonLd => vec![
+            "{\"@context\": \"http://example.org/{X}\", \"@id\": \"http://e/s\", \"p\": \"o\"}", "{\"@context\": \"{X}\", \"@id\": \"http://e/s\", \"p\": \"o\"}", "{\"@context\": [{\"p\": \"http://e/p\"}, \"http://e/{X}\"], \"p\": 1}", "{\"@context\": {\"@import\": \"http://e/{X}\"}, \"http://e/p\": 1}", "{\"@context\": {\"t\": {\"@id\": \"http://e/t\", \"@context\": \"http://e/{X}\"}}, \"t\": {\"http://e/a\": 1}}",
+            "{\"@context\": {\"{X}\": 42}, \"http://e/p\": 1}", "{\"@context\": {\"@vocab\": \"{X} y\"}, \"p\": 1}", "{\"@id\": 42, \"{X}\": 1}", "{\"http://e/p\": {\"@value\": \"x\", \"@language\": \"{X}\"}}", "{\"http://e/p\": {\"@value\": \"x\", \"@type\": \"{X} bad\"}}",
+            "{\"@context\": {\"{X}\": {\"@id\": \"{X}\"}}, \"{X}\": 1}", "{\"@{X}\": 1, \"http://e/p\": 2}", "{\"{X}\": }", "{\"http://e/p\": \"{X}", "{\"@context\": {\"@base\": \"{X}:// bad\"}, \"@id\": \"x\", \"http://e/p\": 1}",
+            "{\"@context\": {\"@version\": \"{X}\"}}", "{\"@context\": {\"a\": {\"@id\": \"http://e/a\", \"@container\": \"{X}\"}}, \"a\": 1}", "{\"@context\": {\"a\": {\"@id\": \"http://e/a\", \"@type\": \"{X}\"}}, \"a\": \"v\"}", "{\"@context\": {\"a\": {\"@reverse\": \"{X}\", \"@id\": \"x\"}}, \"a\": 1}", "{\"@type\": \"{X}\", \"@id\": 1}",
+            "{\"@reverse\": \"{X}\"}", "{\"@included\": \"{X}\"}", "{\"http://e/p\": {\"@list\": [1], \"@id\": \"{X}\"}}", "{\"http://e/p\": {\"@value\": {\"a\": \"{X}\"}}}", "{\"http://e/p\": {\"@value\": \"v\", \"@direction\": \"{X}\"}}",
+            "{\"http://e/p\": {\"@value\": \"v\", \"@index\": 4, \"{X}\": 1}}", "{\"@context\": {\"{X}\": \"@{X}\"}, \"{X}\": 1}", "{\"@context\": {\"a\": {\"@id\": \"http://e/a\", \"@nest\": \"{X}\"}}, \"a\": 1}", "{\"@context\": {\"a\": {\"@id\": \"http://e/a\", \"@language\": 1, \"{X}\": 2}}}", "{\"@context\": {\"@language\": \"{X}\", \"@direction\": \"{X}\"}, \"http://e/p\": \"v\"}",
+            "{\"@context\": {\"a\": \"_:{X} y\", \"@propagate\": \"{X}\"}, \"a\": 1}", "{\"@context\": {\"@protected\": true, \"a{X}\": \"http://e/a\"}, \"http://e/p\": {\"@context\": {\"a{X}\": \"http://e/b\"}, \"a{X}\": 1}}", "{\"@context\": {\"a\": {\"@id\": \"http://e/a\", \"@prefix\": \"{X}\"}}}", "{\"@context\": {\"@import\": 42, \"{X}\": 1}}", "{\"@graph\": [{\"@id\": \"http://e/s\", \"@type\": 42, \"{X}\": 1}]}",
+            "{\"@id\": \"http://e/s\", \"http://e/p\": {\"@set\": 1, \"@list\": 2, \"{X}\": 3}}", "[{\"@context\": \"{X}/ctx\", \"p\": 1}, 42, \"{X}\"]", "{\"http://e/p\": 1e{X}}", "{\"http://e/p\": \"\\u{X}\"}", "{\"@context\": {\"{X}\": {\"@id\": \"http://e/x\", \"@type\": \"@id\", \"@container\": \"@list\", \"@index\": \"{X}\"}}, \"{X}\": 1}",
+        ],
+    }
+}
+/// words (runs of ASCII letters and digits, not inside the hole marker) of a unit, as byte ranges
+fn unit_words(u: &str) -> Vec<(usize, usize)> { tokens(u.as_bytes()).into_iter().filter(|t| t.2 == TK::Word).map(|t| (t.0, t.1)).take(10).collect() }
+/// the error sources of format `f`: (text before, unit with the hole, text after, description)
+fn err_sources(f: Fmt) -> Vec<(String, String, String, String)> {
+    let (pre, ok, ko, _sep, post) = units(f);
+    let mut v: Vec<(String, String, String, String)> = vec![];
+    let tpre = if f == Fmt::Xml { XML_PRE } else { "" }; let tpost = if f == Fmt::Xml { "</rdf:RDF>\n" } else { "" };
+    for (i, t) in err_templates(f).into_iter().enumerate() { v.push((tpre.to_string(), t.to_string(), tpost.to_string(), format!("error template #{i} {t:?}"))); }
+    for (kind, pool) in [("broken", &ko), ("valid", &ok)] { for (ui, u) in pool.iter().enumerate() { for (wi, (a, b)) in unit_words(u).into_iter().enumerate() {
+        v.push((pre.to_string(), format!("{}{HOLE}{}", &u[..a], &u[b..]), post.to_string(), format!("{kind} unit #{ui} with its word #{wi} ({:?}) replaced", &u[a..b])));
+    } } }
+    v
+}
+thread_local! { static ERR_SRC_CACHE: std::cell::RefCell<Vec<Option<std::rc::Rc<Vec<(String, String, String, String)>>>>> = std::cell::RefCell::new(vec![None; 8]); }
+fn err_sources_of(f: Fmt) -> std::rc::Rc<Vec<(String, String, String, String)>> { ERR_SRC_CACHE.with(|c| { let mut c = c.borrow_mut(); let k = f as usize; if c[k].is_none() { c[k] = Some(std::rc::Rc::new(err_sources(f))); } c[k].clone().unwrap() }) }
+/// error document number `j` of format `f`: source j / 8 with long token j % 8
+fn err_doc(f: Fmt, j: usize) -> (Vec<u8>, String) {
+    let srcs = err_sources_of(f); let si = (j / 8) % srcs.len(); let (pre, unit, post, what) = &srcs[si];
+    let (pad, c, reps) = filler_of(si, j % 8);
+    (format!("{pre}{}{post}", unit.replace(HOLE, &filler_text(pad, c, reps))).into_bytes(), format!("{what} by {pad} letter(s) a followed by {reps} times U+{:04X}", c as u32))
+}
+
+const RDF: &str = "http://www.w3.org/1999/02/22-rdf-syntax-ns#";
+const XSD: &str = "http://www.w3.org/2001/XMLSchema#";
+const VOCAB_RDF: [&str; 36] = ["type", "langString", "dirLangString", "nil", "first", "rest", "List", "Property", "Statement", "subject", "predicate", "object", "value", "_1", "li", "HTML", "XMLLiteral", "JSON", "Description", "RDF", "about", "ID", "nodeID", "datatype", "resource", "parseType", "Bag", "Seq", "Alt", "direction", "language", "aboutEach", "bagID", "PlainLiteral", "CompoundLiteral", ""];
+const VOCAB_XSD: [&str; 10] = ["string", "integer", "boolean", "decimal", "double", "float", "anyURI", "dateTime", "langString", ""];
+const VOCAB_OTHER: [&str; 11] = ["https://www.w3.org/ns/i18n#en-us_rtl", "https://www.w3.org/ns/i18n#_ltr", "http://www.w3.org/2000/01/rdf-schema#Literal", "http://www.w3.org/2002/07/owl#sameAs", "http://www.w3.org/1999/02/22-rdf-syntax-ns#langstring", "HTTP://www.w3.org/1999/02/22-rdf-syntax-ns#langString", "http://www.w3.org/1999/02/22-rdf-syntax-ns#langString#", "http://www.w3.org/1999/02/22-rdf-syntax-ns#lang%53tring", "https://www.w3.org/1999/02/22-rdf-syntax-ns#langString", "http://www.w3.org/2001/XMLSchema#String", "http://www.w3.org/1999/02/22-rdf-syntax-ns"];
+const NVOCAB: usize = 36 + 10 + 11;
+const NVFORM: usize = 4;
+/// rdf:type, langString, dirLangString, nil, first, _1, li, XMLLiteral, JSON, the rdf: namespace itself, xsd:string, xsd:integer, the xsd: namespace, an i18n datatype, a percent-encoded near miss
+const KEY_VOCAB: [usize; 15] = [0, 1, 2, 3, 4, 13, 14, 16, 17, 35, 36, 37, 45, 46, 53];
+fn vocab_iri(k: usize) -> String { let k = k % NVOCAB; if k < 36 { format!("{RDF}{}", VOCAB_RDF[k]) } else if k < 46 { format!("{XSD}{}", VOCAB_XSD[k - 36]) } else { VOCAB_OTHER[k - 46].to_string() } }
+/// namespace and local part (split after the last '#' or '/'); the flag tells whether the local part can be written as an ASCII NCName / PN_LOCAL
+fn split_iri(v: &str) -> (String, String, bool) { let at = v.rfind(|c| c == '#' || c == '/').map(|i| i + 1).unwrap_or(v.len()); let (ns, l) = v.split_at(at); let plain = !l.is_empty() && l.chars().all(|c| c.is_ascii_alphanumeric() || c == '_' || c == '-') && !l.starts_with('-') && !l.chars().next().unwrap().is_ascii_digit(); (ns.to_string(), l.to_string(), plain) }
+/// vocabulary document number `j` of format `f`: IRI j % NVOCAB in every position, in form (j / NVOCAB) % NVFORM
+fn voc_doc(f: Fmt, j: usize) -> (String, String) {
+    let v = vocab_iri(j); let form = (j / NVOCAB) % NVFORM; let (ns, local, plain) = split_iri(&v);
+    let mut o = String::new();
+    let what = format!("the IRI <{v}> in every position, form {form}");
+    match f {
+        Fmt::Nt | Fmt::Nq | Fmt::Gnq => {
+            // form 1: the last character of the IRI as a numeric escape; form 2: long UCHAR escape of its first character
+            let w = match form { 1 if !v.is_empty() => { let c = v.chars().last().unwrap(); format!("{}\\u{:04X}", &v[..v.len() - c.len_utf8()], c as u32) } 2 => { let c = v.chars().next().unwrap(); format!("\\U{:08X}{}", c as u32, &v[c.len_utf8()..]) } _ => v.clone() };
+            let gn = |k: usize| if f == Fmt::Nt { String::new() } else if k % 2 == 0 { format!(" <{w}>") } else { String::new() };
+            o.push_str(&format!("<{w}> <http://e/p> <http://e/o>{} .\n<http://e/s> <{w}> <http://e/o>{} .\n<http://e/s> <http://e/p> <{w}>{} .\n", gn(1), gn(0), gn(1)));
+            o.push_str(&format!("<http://e/s> <http://e/p> \"chat\"^^<{w}>{} .\n<http://e/s> <http://e/p> \"\"^^<{w}>{} .\n<http://e/s> <http://e/p> \"chat\"@en{} .\n<http://e/s> <http://e/p> \"chat\"{} .\n", gn(0), gn(1), gn(0), gn(1)));
+            o.push_str(&format!("<{w}> <{w}> <{w}>{} .\n_:b <{w}> \"1\"^^<{w}>{} .\n<< <{w}> <{w}> \"x\"^^<{w}> >> <{w}> << <{w}> <{w}> <{w}> >>{} .\n", gn(0), gn(0), gn(0)));
+            if f == Fmt::Gnq { o.push_str(&format!("\"s\"^^<{w}> \"p\"^^<{w}> \"o\"^^<{w}> \"g\"^^<{w}> .\n\"s\"@en \"p\"@en \"o\"@en \"g\"@en .\n<http://e/s> <http://e/p> \"\"^^<> .\n?v <{w}> ?w <{w}> .\n")); }
+            // legal but unusual spellings: empty and long language-tagged strings, every ECHAR / UCHAR, an empty lexical form for a numeric datatype, unusual labels, scheme-only IRIs
+            if j % NVOCAB < 3 { o.push_str("<http://e/s> <http://e/p> \"\"@en .\n<http://e/s> <http://e/p> \"x\"@EN-Latn-US-x-private .\n<http://e/s> <http://e/p> \"\\t\\b\\n\\r\\f\\\"\\'\\\\\\u00e9\\U0001F600\" .\n<http://e/s> <http://e/p> \"\"^^<http://www.w3.org/2001/XMLSchema#integer> .\n_:0 <http://e/p> _:a.b-c_d .\n<a:> <a:b> <a:?#> .\n"); }
+            if form == 3 { o.push_str(&format!("<http://e/s> <http://e/p> \"chat\"@en^^<{w}> .\n")); }
+        }
+        Fmt::Turtle | Fmt::Trig | Fmt::Gtrig => {
+            o.push_str(&format!("@prefix rdf: <{RDF}> .\n@prefix xsd: <{XSD}> .\n@prefix v: <{ns}> .\n"));
+            // form 0: prefixed names; form 1: IRIREFs; form 2: relative to @base; form 3: IRIREFs and the forms that may be errors
+            let t: String = match form { 0 if plain || local.is_empty() => format!("v:{local}"), 2 => { o.push_str(&format!("@base <{ns}> .\n")); if local.is_empty() { "<>".to_string() } else if ns.ends_with('#') { format!("<#{local}>") } else { format!("<{local}>") } } _ => format!("<{v}>") };
+            let open = if f == Fmt::Turtle { "" } else if form % 2 == 0 { "GRAPH <http://e/g> {\n" } else { "{\n" };
+            let named = if f == Fmt::Turtle { String::new() } else { format!("{t} {{ {t} {t} {t} , \"in graph\"^^{t} }}\n") };
+            o.push_str(open);
+            o.push_str(&format!("{t} {t} {t} , \"chat\"^^{t} , \"\"^^{t} , \"chat\"@en , 'x'^^{t} , \"\"\"long\"\"\"^^{t} , \"chat\" , 1 , 1.5 , 1e0 , true ;\n  a {t} ;\n  <http://e/p> ( {t} \"a\"^^{t} ) , [ {t} {t} ; {t} \"b\"^^{t} ] , << {t} {t} \"q\"^^{t} >> .\n"));
+            o.push_str(&format!("<http://e/s> {t} {t} {{| {t} \"ann\"^^{t} |}} .\n"));
+            if f == Fmt::Gtrig { o.push_str(&format!("\"s\"^^{t} \"p\"^^{t} \"o\"^^{t} .\n?v {t} \"x\"@en .\n")); }
+            if !open.is_empty() { o.push_str("}\n"); }
+            o.push_str(&named);
+            // legal but unusual spellings: prefixes named like keywords, the empty prefix alone, local names made of ':' / digits / escapes, signed and
+            // truncated numbers, empty long strings, quotes inside long strings, every ECHAR / UCHAR, long language tags
+            if j % NVOCAB < 3 { o.push_str("@prefix a: <http://e/a#> .\n@prefix true: <http://e/t#> .\n@prefix prefix: <http://e/p#> .\n@prefix : <http://e/empty#> .\na:a a a:a , true:true , prefix:base , : , a:: , a:%41 , a:1 , a:a.b , a:\\~ .\n");
+            o.push_str(": : +1 , -0 , 00 , .5 , -.5e-3 , 1.0 , false , \"\"\"\"\"\" , '''''' , \"\"\"a\"b\"\"c\"\"\" , 'x'@EN-Latn-US-x-private , \"\"@en , \"\\t\\b\\n\\r\\f\\\"\\'\\\\\\u00e9\\U0001F600\" .\n: : 1.E3 , 1.e-0 .\n"); }
+            if form == 3 { o.push_str(&format!("<http://e/s> <http://e/p> \"\"^^<> .\n<http://e/s> <http://e/p> \"chat\"@en^^{t} .\n")); }
+        }
+        Fmt::Xml => {
+            o.push_str(&format!("<?xml version=\"1.0\"?>\n<rdf:RDF xmlns:rdf=\"{RDF}\" xmlns:e=\"http://e/ns#\" xmlns:v=\"{}\">\n", esc_xml(&ns)));
+            let a = esc_xml(&v);
+            match form {
+                0 => o.push_str(&format!(" <rdf:Description rdf:about=\"{a}\">\n  <e:p rdf:resource=\"{a}\"/>\n  <e:p rdf:datatype=\"{a}\">chat</e:p>\n  <e:p rdf:datatype=\"{a}\" xml:lang=\"en\">chat</e:p>\n  <e:p rdf:datatype=\"{a}\"></e:p>\n  <e:p rdf:datatype=\"{a}\"/>\n  <e:p xml:lang=\"en\">chat</e:p>\n  <e:p>chat</e:p>\n  <rdf:type rdf:resource=\"{a}\"/>\n  <e:q rdf:ID=\"r1\" rdf:datatype=\"{a}\">reified</e:q>\n  <e:c rdf:parseType=\"Collection\"><rdf:Description rdf:about=\"{a}\"/></e:c>\n </rdf:Description>\n")),
+                1 if plain => o.push_str(&format!(" <rdf:Description rdf:about=\"http://e/s\">\n  <v:{local} rdf:resource=\"{a}\"/>\n  <v:{local} rdf:datatype=\"{a}\">chat</v:{local}>\n  <v:{local} xml:lang=\"en\">chat</v:{local}>\n  <v:{local} rdf:parseType=\"Resource\"><v:{local}>x</v:{local}></v:{local}>\n </rdf:Description>\n")),
+                2 if plain => o.push_str(&format!(" <v:{local} rdf:about=\"http://e/typed\"><e:p rdf:datatype=\"{a}\">chat</e:p></v:{local}>\n <rdf:Description><e:p><v:{local}/></e:p></rdf:Description>\n")),
+                3 if plain => o.push_str(&format!(" <rdf:Description rdf:about=\"http://e/s2\" v:{local}=\"attribute value\" xml:lang=\"en\"/>\n <rdf:Description rdf:about=\"http://e/s3\"><e:p v:{local}=\"on a property element\"/></rdf:Description>\n")),
+                _ => o.push_str(&format!(" <rdf:Description rdf:about=\"{a}\" xml:lang=\"en\"><e:p rdf:datatype=\"{a}\">chat</e:p><e:p>tagged</e:p><e:p rdf:parseType=\"Literal\">chat</e:p><rdf:_1>x</rdf:_1><e:p rdf:parseType=\"Literal\"><e:b xmlns:q=\"http://q/\">x<q:i/></e:b></e:p></rdf:Description>\n <rdf:Description rdf:about=\"{a}\" rdf:_2=\"attribute\"/>\n <rdf:Seq><rdf:li>a</rdf:li><rdf:li rdf:resource=\"{a}\"/><rdf:li rdf:datatype=\"{a}\" xml:lang=\"EN-Latn-US-x-private\">b</rdf:li></rdf:Seq>\n <rdf:Description rdf:about=\"{a}\" xml:lang=\"en\"><e:p xml:lang=\"\">no language</e:p></rdf:Description>\n")),
+            }
+            o.push_str("</rdf:RDF>\n");
+        }
+        Fmt::JsonLd => {
+            let a = esc_json(&v);
+            match form {
+                0 => o.push_str(&format!("{{\"@context\": {{\"v\": \"{}\", \"t\": {{\"@id\": \"{a}\"}}, \"typed\": {{\"@id\": \"http://e/typed\", \"@type\": \"{a}\"}}, \"ref\": {{\"@id\": \"http://e/ref\", \"@type\": \"@id\"}}}},\n \"@id\": \"{a}\", \"@type\": \"{a}\",\n \"{a}\": [{{\"@id\": \"{a}\"}}, {{\"@value\": \"chat\", \"@type\": \"{a}\"}}, {{\"@value\": \"\", \"@type\": \"{a}\"}}, {{\"@value\": \"chat\", \"@language\": \"en\"}}, \"chat\", {{\"@list\": [{{\"@id\": \"{a}\"}}, {{\"@value\": \"l\", \"@type\": \"{a}\"}}]}}],\n \"typed\": [\"chat\", 1, true, 1.5], \"v:{}\": 1, \"t\": true, \"ref\": \"{a}\"}}\n", esc_json(&ns), esc_json(&local))),
+                1 => o.push_str(&format!("{{\"@id\": \"{a}\", \"@graph\": [{{\"@id\": \"http://e/x\", \"{a}\": [{{\"@id\": \"{a}\"}}, {{\"@value\": 1, \"@type\": \"{a}\"}}, {{\"@value\": true, \"@type\": \"{a}\"}}, {{\"@value\": 1.5, \"@type\": \"{a}\"}}, {{\"@value\": \"v\", \"@type\": \"{a}\", \"@index\": \"i\"}}, {{\"@value\": {{\"k\": [1, null]}}, \"@type\": \"@json\"}}, {{\"@value\": \"v\", \"@language\": \"EN-Latn-US-x-private\"}}, {{\"@value\": null, \"@type\": \"{a}\"}}]}}]}}\n")),
+                2 => o.push_str(&format!("{{\"@context\": {{\"@vocab\": \"{}\", \"@base\": \"{}\"}}, \"@id\": \"{}\", \"@type\": \"{}\", \"{}\": [{{\"@value\": \"chat\", \"@type\": \"{}\"}}, {{\"@value\": \"e\", \"@type\": \"\"}}, {{\"@id\": \"\"}}]}}\n", esc_json(&ns), esc_json(&ns), esc_json(&local), esc_json(&local), esc_json(&local), esc_json(&local))),
+                _ => o.push_str(&format!("{{\"@id\": \"http://e/s\", \"{a}\": [{{\"@value\": \"ok\", \"@type\": \"{a}\"}}, {{\"@value\": \"chat\", \"@language\": \"en\", \"@type\": \"{a}\"}}]}}\n")),
+            }
+        }
+    }
+    (o, what)
+}
+
+/// the directed part of round 7: (a) every error source under its four shifts (templates: also under a second character / length),
+/// (b) every vocabulary IRI in every form; each through parse(&[u8]) and two other entry points / ways of consuming
+fn directed_recipes_r7(thorough: bool) -> (Vec<Recipe>, Vec<Recipe>) {
+    let (mut ev, mut vv) = (vec![], vec![]); let mut seed = 0x5EED_7000u64;
+    let consumes = [Consume::Collect, Consume::Owned, Consume::Steps, Consume::SinkFail(0), Consume::ForEach, Consume::SinkFail(2)];
+    let pick_alts = |f: Fmt, base: bool, k: usize| -> Vec<(Entry, Consume)> {
+        let mut es = vec![Entry::Str, Entry::Cursor, Entry::Feed { chunk: 1 + k % 7, cut: None }, Entry::Buffered(1 + k % 5), Entry::FailAt(50 + k % 400)];
+        if !base || matches!(f, Fmt::Nt | Fmt::Nq | Fmt::Gnq) { es.extend([Entry::ModStr, Entry::ModBuf, Entry::Default]); }
+        if f == Fmt::JsonLd { es.push(Entry::Async); es.push(Entry::Opts((k % 8) as u8)); }
+        vec![(es[k % es.len()], consumes[k % consumes.len()]), (es[(k / 2 + 3) % es.len()], consumes[(k / 3 + 1) % consumes.len()])]
+    };
+    for f in FMTS {
+        let srcs = err_sources_of(f); let ntempl = err_templates(f).len();
+        for si in 0..srcs.len() { for v in 0..(if si < ntempl || thorough { 8 } else { 4 }) {
+            let k = ev.len(); seed += 1; let base = (si + v / 4) % 2 == 0;
+            ev.push(Recipe { pf: f, doc: ERR_BASE + si * 8 + v, wrap: 0, tort: None, parser: f, base, alts: if v % 4 == si % 4 || si < ntempl { pick_alts(f, base, k) } else { vec![] }, seed });
+        } }
+        for j in 0..NVOCAB * NVFORM {
+            // quick tier: every IRI in form 0; the other spellings for the IRIs the toolkit itself treats specially
+            if !thorough && j / NVOCAB != 0 && !KEY_VOCAB.contains(&(j % NVOCAB)) { continue; }
+            let k = vv.len(); seed += 1; let base = (j + j / NVOCAB) % 2 == 0;
+            // every IRI in form 0 (and the first IRIs -- rdf:type, rdf:langString, rdf:dirLangString -- in every form) through two more entry points / ways of consuming, the other spellings through one or none
+            let mut alts = pick_alts(f, base, k); if !(j / NVOCAB == 0 || j % NVOCAB < 3 || thorough) { alts.truncate(if k % 2 == 0 { 1 } else { 0 }); }
+            vv.push(Recipe { pf: f, doc: VOC_BASE + j, wrap: 0, tort: None, parser: f, base, alts, seed });
+        }
+    }
+    (ev, vv)
+}
+/// the random part of round 7: error and vocabulary documents of any format, wrapped / with difficult characters inserted, given to any parser
+fn random_recipe_r7(base: &Rng, k: usize) -> Recipe {
+    let mut r = base.fork(6_500_000 + k as u64);
+    let pf = FMTS[r.below(8)];
+    let doc = if r.chance(3, 5) { ERR_BASE + r.below(err_sources_of(pf).len() * 8) } else { VOC_BASE + r.below(NVOCAB * NVFORM) };
+    let wrap = if r.chance(1, 2) { 0 } else { r.below(NWRAP) };
+    let tort = if r.chance(1, 2) { None } else { Some(random_tort(&mut r)) };
+    let hosts = host_formats(wrap);
+    let parser = if !hosts.is_empty() && r.chance(1, 2) { *r.pick(hosts) } else if r.chance(4, 5) { pf } else { FMTS[r.below(8)] };
+    let b = r.chance(1, 2);
+    let alts = (0..1 + r.below(2)).map(|_| (random_entry(&mut r, parser, b, 600), random_consume(&mut r))).collect();
+    Recipe { pf, doc, wrap, tort, parser, base: b, alts, seed: r.next() }
+}
+/// histories on the documents of round 7: every error template (one shift each, cycling) and a sample of the vocabulary documents under the
+/// consuming calls and iterators; JSON-LD also under every loader (a context URL nobody serves is quoted by the loader's own message) and option presets
+fn directed_hcases_r7(thorough: bool) -> Vec<HCase> {
+    let mut v = vec![];
+    let hists = [History { pre: vec![MOp::ForEach(Lv::Stmt), MOp::TryEach(Lv::Item, None)], fin: None }, History { pre: vec![MOp::TrySome(Lv::Item, false), MOp::Hint(Lv::Item)], fin: Some((Fin::Collect, vec![])) }, History { pre: vec![], fin: Some((Fin::MapIter, vec![MOp::ForSome(Lv::Item); 6])) }, History { pre: vec![MOp::TryEach(Lv::Stmt, Some(1))], fin: Some((Fin::AddTo, vec![])) }, History { pre: vec![], fin: Some((Fin::FilterMapIter(1), vec![MOp::ForSome(Lv::Item); 5])) }, History { pre: vec![MOp::ForSome(Lv::Stmt)], fin: Some((Fin::Convert, vec![MOp::TryEach(Lv::Item, None), MOp::TryEach(Lv::Item, None)])) }];
+    let entries = [Entry::Slice, Entry::Str, Entry::Cursor, Entry::Feed { chunk: 3, cut: None }, Entry::Buffered(2)];
+    let mk = |f: Fmt, doc: usize, k: usize| Recipe { pf: f, doc, wrap: 0, tort: None, parser: f, base: false, alts: vec![], seed: 0x5EED_7700 + k as u64 };
+    for f in FMTS {
+        let nt = err_templates(f).len();
+        for si in 0..nt { let k = v.len();
+            let base = if matches!(f, Fmt::Nt | Fmt::Nq | Fmt::Gnq | Fmt::JsonLd) || k % 3 == 0 { None } else { Some(k % BASES.len()) };
+            v.push(HCase { f, base, jopts: None, entry: entries[k % entries.len()], doc: HDoc::Poly(Box::new(mk(f, ERR_BASE + si * 8 + (k % 8), k))), hist: hists[k % hists.len()].clone().normalised() });
+            if f == Fmt::JsonLd { for (li, loader) in [4u8, 7, 5, 1, 6, 2, 3].iter().enumerate() { if !thorough && li >= 2 && (si + li) % 3 != 0 && si >= 5 { continue; } let k2 = v.len();
+                let j = JOpts { loader: *loader, base: if (si + li) % 4 == 0 { ((si + li) % 9) as u8 + 1 } else { 0 }, ctx: if (si + li) % 5 == 0 { (JOpts::NCTX - 2 + (li as u8 % 2)) } else { 0 }, generalized: if li % 2 == 0 { Some(true) } else { None }, policy: (li % 5) as u8, ..JOpts::default() };
+                v.push(HCase { f, base: None, jopts: Some(j), entry: [Entry::Slice, Entry::Str, Entry::Async][k2 % 3], doc: HDoc::Poly(Box::new(mk(f, ERR_BASE + si * 8 + (k2 % 8), k2))), hist: hists[k2 % hists.len()].clone().normalised() }); } }
+        }
+        for j in (0..NVOCAB * NVFORM).filter(|j| thorough || j % NVOCAB < 3 || (j % NVOCAB) % 7 == j / NVOCAB) { let k = v.len();
+            let base = if matches!(f, Fmt::Nt | Fmt::Nq | Fmt::Gnq | Fmt::JsonLd) || k % 2 == 0 { None } else { Some(k % BASES.len()) };
+            let jopts = if f == Fmt::JsonLd && k % 2 == 1 { Some(JOpts { native: Some(k % 4 == 1), rdf_type: Some(k % 3 == 0), dir: (k % 3) as u8, generalized: if k % 5 == 0 { Some(true) } else { None }, mode: (k % 3) as u8, ..JOpts::default() }) } else { None };
+            v.push(HCase { f, base, jopts, entry: entries[k % entries.len()], doc: HDoc::Poly(Box::new(mk(f, VOC_BASE + j, k))), hist: hists[k % hists.len()].clone().normalised() });
+        }
+    }
+    v
 }
 
 /// class of a failure description: its text up to the first quoted value, plus the punctuation of that value
@@ -1879,10 +2143,13 @@ fn main() {
         }
         return;
     }
+    let t0 = std::time::Instant::now(); let timing = std::env::var("C08_TIMING").is_ok();
+    let lap = |what: &str| { if timing { eprintln!("c08 timing: {what} reached after {:.1} s", t0.elapsed().as_secs_f64()); } };
     let mut sum = Summary::default();
     sum.rule = "case = (parser, input) where input is a valid seed document, one of its single-edit mutants (deletion, truncation, byte flip, insertion of a byte), a splice of a format-specific dictionary token (delimiters, escapes, unusual IRIs incl. IPv6 hosts, bad labels/tags, XML/JSON constructs), or invalid UTF-8; plus a directed stream of short inputs (the empty input, every 1-byte input, 2-byte inputs over 28 interesting bytes -- all 65 536 in the thorough tier --, prefixes and repetitions of the UTF-8 byte-order mark, BOM-prefixed valid documents and their truncations) through every parser; plus deep nesting (collections, property lists, quoted triples, XML elements, JSON arrays) in a subprocess on a 2 MiB thread; \
 plus (round 4) a polyglot stream and a directed stream: a document (seed, generated from the grammar with non-ASCII characters inside IRIs / labels / tags / names / literals, token soup, random bytes) of any format, wrapped in another syntax (32 wrappers: HTML script data blocks, XML/CDATA envelopes, JSON strings, JSONP, Markdown, HTTP/MIME messages, comments, literals of the other RDF syntaxes, UTF-16, other line ends, BOMs ...), with characters whose case mappings change their length, combining marks, astral and special code points, look-alikes and ill-formed UTF-8 inserted before / inside / after tokens (once, at several places, or saturating the prefix / the payload / the suffix / everything), given to the parser of the embedded format and to the other parsers, through every public entry point (parse on a slice / BufReader of several capacities / Cursor / a reader handing out 1..n bytes at a time or failing after k bytes, parse_str, the module-level functions, Default, JSON-LD async_parse_str and option presets) and every way of consuming the source (for_each, consuming accessors, one for_some call at a time continuing after an error, a failing sink, collect); each run is checked by the property oracle and every entry point must agree with parse(&[u8]); \
 plus (round 6) HISTORIES: one source driven by a sequence of calls -- every overridable provided method of Source (try_for_each_item, for_some_item, for_each_item, size_hint_items, filter_items, filter_map_items, map_items) and every method of TripleSource / QuadSource (try_for_some_*, try_for_each_* with sinks failing at the 1st..4th statement, for_some_*, for_each_*, size_hint_*, filter_*, filter_map_*, map_*, to_quads / to_triples, collect_*, add_to_*), the adapters' into_iter -- each called again after the previous call returned Err (source or sink error), after Ok and after exhaustion: every ordered pair of calls and every consuming call after nothing / an error / exhaustion (directed), random sequences (random), on documents of valid and broken units in every order (error first / in the middle / last / only errors / nothing), polyglot inputs and failing readers, for every parser and entry point; the oracle runs on every call (a panic or an invalid term after an error is a failure; tagged [after-error-rio-turtle] for the rio_turtle parsers Turtle, TriG, GTriG, GNQ only when an earlier call had reported an error), every call is compared with what the required method try_for_some_item gives on a fresh source (in Rust and, inside Coq, with the model Source.v of the default methods and adapters); and parser OPTIONS as dimensions of the configuration: a pool of base IRIs (none, with query and fragment, without authority, without hierarchy, IPv6, dot segments, non-ASCII) for Turtle / TriG / GTriG / RDF/XML on documents with relative IRIs, @base directives and xml:base; every with_* of JsonLdOptions (processing mode, base / no base, expand context inline / by IRI / removed, ordered, rdf_direction, produce_generalized_rdf, expansion policy, use_native_types, use_rdf_type, compact_arrays, compact_to_relative, spaces, compact context, every document-loader builder with NoLoader / StaticLoader / in-memory closure / chain loaders) one at a time, each together with produce_generalized_rdf, in named combinations and at random, on JSON-LD documents built from 64 features that the options enable (blank node identifiers as properties directly / through terms / @vocab / @reverse / containers / nesting / scoped contexts, relative-IRI properties and vocabularies, @direction, relative and ill-formed @id / @type / datatypes / blank node labels, @base in the context, in-memory remote contexts and @import, @json, native numbers ...); \
+plus (round 7) ERROR PATHS: every parser driven into every kind of error it can report by documents in which one token (IRI, prefix, local name, label, language tag, key, context URL, element / attribute / entity name, text) is a long non-ASCII token -- 100..1000 repeats of a 2-, 3- or 4-byte character behind 0..3 ASCII letters, so that any cut of a message at a byte offset lands inside a character for one of the four shifts (proved: pads_cover_every_cut; evaluated on the real messages inside Coq: family_covers, msg_ok) -- from hand-written templates aimed at each error kind whose message quotes the document and from every broken and valid unit of the history stream with each of its words replaced in turn; the reader's injected I/O failure carries such a message too; EVERY error any stream obtains (and the StreamError around it) is rendered completely -- Display twice, Debug, alternate and padded forms, and every link of its source() chain -- each step under catch_unwind; and LEGAL BUT UNUSUAL TERMS: 57 IRIs of the rdf: / xsd: / i18n vocabularies and near misses in every position of every syntax (subject, predicate, object, graph name, quoted triples, lists, annotations, element / attribute names, prefixed / relative / escaped spellings) and as the explicit datatype of literals ('chat'^^rdf:langString, ''^^xsd:string, the empty datatype IRI, language tag together with a datatype where the syntax allows it and where it does not), through every entry point, way of consuming and history, with datatype() / language_tag() / lexical_form() of every yielded literal compared with the raw literal inside Coq (lit_ok); \
 non-trivial = the parser yielded at least one statement from a mutated input (so term validity is actually exercised) or rejected a mutant of a valid document; distinct = distinct (parser, input bytes)".into();
     std::panic::set_hook(Box::new(|info| { LAST_PANIC.with(|l| *l.borrow_mut() = format!("{info}").replace('\n', " ")); }));
     let base = Rng::new(a.seed);
@@ -1955,6 +2222,7 @@ non-trivial = the parser yielded at least one statement from a mutated input (so
             }
         }
     }
+    lap("round 4");
     // ---------- round 4: polyglot / wrapped inputs, Unicode at every position class, every entry point ----------
     let thorough = a.n >= 20000;
     let mut utf8_cases: Vec<(usize, String)> = vec![];
@@ -1974,22 +2242,77 @@ non-trivial = the parser yielded at least one statement from a mutated input (so
         }
         utf8_cases = std::mem::take(&mut cx.utf8_cases);
     }
+    lap("round 6");
     // ---------- round 6: histories (every way of driving a source, again after Err / Ok / exhaustion) and parser options ----------
     let mut hist_cases: Vec<(usize, String)> = vec![];
     {
         let mut cx = HistCtx { sum: &mut sum, profile, verbose: a.only.is_some(), coq_cases: vec![], coq_budget: if profile == "dev" { if thorough { 20_000 } else { 4000 } } else { 0 } };
         let nh = if thorough { (a.n / 8).min(60_000) } else { a.n / 3 };
         match a.only {
-            Some(i) if i >= 5_000_000 => { let d = directed_hcases(thorough); if let Some(hc) = d.get(i - 5_000_000) { run_hcase(i, hc, &mut cx); } }
+            Some(i) if i >= 6_000_000 => {}
+            Some(i) if i >= 5_000_000 => { let mut d = directed_hcases(thorough); d.extend(directed_hcases_r7(thorough)); if let Some(hc) = d.get(i - 5_000_000) { run_hcase(i, hc, &mut cx); } }
             Some(i) if i >= 4_000_000 => run_hcase(i, &random_hcase(&base, i - 4_000_000), &mut cx),
             Some(_) => {}
             None => {
                 for k in 0..nh { run_hcase(4_000_000 + k, &random_hcase(&base, k), &mut cx); }
-                for (j, hc) in directed_hcases(thorough).iter().enumerate() { run_hcase(5_000_000 + j, hc, &mut cx); }
+                let mut d = directed_hcases(thorough); d.extend(directed_hcases_r7(thorough));
+                for (j, hc) in d.iter().enumerate() { run_hcase(5_000_000 + j, hc, &mut cx); }
             }
         }
         hist_cases = std::mem::take(&mut cx.coq_cases);
     }
+    lap("round 7");
+    // ---------- round 7: error paths (long non-ASCII tokens in every error message, every error rendered) and legal-but-unusual terms ----------
+    let mut r7_cases: Vec<(usize, String)> = vec![];
+    {
+        let mut cx = RunCtx { sum: &mut sum, profile, verbose: a.only.is_some(), utf8_cases: vec![], utf8_budget: 0 };
+        let (ev, vv) = directed_recipes_r7(thorough);
+        let nr7 = if thorough { (a.n / 10).min(40_000) } else { a.n / 6 };
+        match a.only {
+            Some(i) if i >= 8_000_000 => {}
+            Some(i) if i >= 7_000_000 => { if let Some(rc) = vv.get(i - 7_000_000) { run_recipe(i, rc, &mut cx); } }
+            Some(i) if i >= 6_500_000 => run_recipe(i, &random_recipe_r7(&base, i - 6_500_000), &mut cx),
+            Some(i) if i >= 6_000_000 => { if let Some(rc) = ev.get(i - 6_000_000) { run_recipe(i, rc, &mut cx); } }
+            Some(_) => {}
+            None => {
+                for (j, rc) in ev.iter().enumerate() { run_recipe(6_000_000 + j, rc, &mut cx); }
+                lap("round 7 random");
+                for k in 0..nr7 { run_recipe(6_500_000 + k, &random_recipe_r7(&base, k), &mut cx); }
+                lap("round 7 vocabulary");
+                LIT_CASES.with(|c| c.borrow_mut().0 = profile == "dev");
+                for (j, rc) in vv.iter().enumerate() { run_recipe(7_000_000 + j, rc, &mut cx); }
+                LIT_CASES.with(|c| c.borrow_mut().0 = false);
+            }
+        }
+        lap("round 7 Coq cases");
+        if a.only.is_none() && profile == "dev" {
+            // the accessors of the literals the parsers yielded against the model (Literal.v)
+            for (k, c) in LIT_CASES.with(|c| std::mem::take(&mut c.borrow_mut().1)).into_iter().enumerate() { r7_cases.push((8_000_000 + k, c)); }
+            sum.extra.push(("coq_literal_cases".into(), r7_cases.len().to_string()));
+            // the messages of one error document under its four shifts: str::is_char_boundary against the model, and every cut offset inside
+            // the long token falls inside a character for one of the shifts (Messages.v); a bounded number of families of bounded size
+            let mut nfam = 0usize;
+            for f in FMTS { let srcs = err_sources_of(f); let mut mine = 0usize;
+                for si in 0..srcs.len() {
+                    if mine >= 10 { break; }
+                    let (_, c, reps) = filler_of(si, 0); if reps > 150 { continue; }
+                    let msgs: Vec<String> = (0..4).filter_map(|v| { let (d, _) = err_doc(f, si * 8 + v); guarded(f, si % 2 == 0, &d, Entry::Slice, Consume::ForEach).ok().and_then(|o| o.err_full) }).collect();
+                    if msgs.len() != 4 || msgs.iter().any(|m| m.len() > 760) { continue; }
+                    let Some(start) = msgs[0].find(&filler_text(0, c, reps)) else { continue; };
+                    if !(0..4).all(|p| msgs[p].len() >= start && msgs[p].is_char_boundary(start) && msgs[p][..start] == msgs[0][..start] && msgs[p][start..].starts_with(&filler_text(p, c, reps))) { continue; }
+                    let (lo, hi) = (start + 4, start + c.len_utf8() * reps);
+                    r7_cases.push((8_100_000 + nfam, format!("family_covers [{}] {lo} {hi}", msgs.iter().map(|m| coq_bytes(m.as_bytes())).collect::<Vec<_>>().join("; "))));
+                    let m = &msgs[si % 4]; let nb: Vec<String> = (0..m.len() + 2).filter(|i| !m.is_char_boundary(*i)).map(|i| i.to_string()).collect();
+                    r7_cases.push((8_200_000 + nfam, format!("msg_ok {} {} 0 {} [{}]", coq_bytes(m.as_bytes()), coq_str(m), m.len() + 2, nb.join("; "))));
+                    nfam += 1; mine += 1; sum.bump(&format!("error-message-family:{f:?}"));
+                }
+            }
+            sum.extra.push(("coq_message_families".into(), nfam.to_string()));
+        }
+        let st = RENDER_STAT.with(|s| *s.borrow());
+        sum.extra.push(("errors_rendered".into(), st[0].to_string())); sum.extra.push(("errors_rendered_long_non_ascii".into(), st[1].to_string())); sum.extra.push(("longest_error_message_bytes".into(), st[2].to_string())); sum.extra.push(("source_chain_links_rendered".into(), st[3].to_string()));
+    }
+    lap("validators");
     // ---------- validators vs the regenerated regexes (evaluated inside Coq) ----------
     // strings over the boundary code points of every class (each range end and its neighbours)
     let mut cases: Vec<(usize, String)> = vec![];
@@ -2024,7 +2347,9 @@ non-trivial = the parser yielded at least one statement from a mutated input (so
         }
         cases.extend(utf8_cases.drain(..));
         cases.extend(hist_cases.drain(..));
+        cases.extend(r7_cases.drain(..));
     }
+    lap("deep nesting");
     // deep nesting, each in a subprocess
     if a.only.is_none() {
         let exe = std::env::current_exe().unwrap();
@@ -2044,6 +2369,7 @@ non-trivial = the parser yielded at least one statement from a mutated input (so
         if !cases.is_empty() { sum.shards = write_shards(&a.out, "From Sophia.C08 Require Import Model.", &cases, a.shards); sum.extra.push(("coq_cases".into(), cases.len().to_string())); }
         std::fs::write(format!("{}/summary.json", a.out), sum.to_json()).unwrap();
     }
+    lap("the end");
     println!("c08 ({profile}): {} cases, {} distinct non-trivial, {} oracle failures", sum.evaluations, sum.distinct_nontrivial, sum.oracle_failures.len());
     for f in sum.oracle_failures.iter().take(12) { println!("  FAIL {}", f.1.chars().take(300).collect::<String>()); }
 }
